@@ -270,7 +270,7 @@ Section Ext.
   Lemma is_applicable_ext objs ga s : is_applicable d1 eps objs ga s = is_applicable d2 eps objs ga s.
   Proof. unfold is_applicable. apply eval_g_ext. Qed.
 
-  Lemma antecedents_hold_ext g s : antecedents_hold d1 eps g s = antecedents_hold d2 eps g s.
+  Lemma antecedents_hold_ext objs g s : antecedents_hold d1 eps objs g s = antecedents_hold d2 eps objs g s.
   Proof. unfold antecedents_hold. destruct (gg_ante g); [apply eval_g_ext|reflexivity]. Qed.
 
   Lemma apply_universal_ext ga objs uorder prev cur :
@@ -289,8 +289,8 @@ Section Ext.
     unfold apply_op. rewrite is_applicable_ext.
     destruct (if skip then Ok true else is_applicable d2 eps objs ga prev) as [okb|]; [|reflexivity]. cbn [bind].
     destruct (negb okb && negb allow); [reflexivity|].
-    rewrite (foldM_ext _ (fun cur g => do h <- (if skip then Ok true else antecedents_hold d2 eps g prev);
-                                       if h then apply_group_m eps prev cur g else Ok cur)).
+    rewrite (foldM_ext _ (fun cur g => do h <- (if skip then Ok true else antecedents_hold d2 eps objs g prev);
+                                       if h then apply_group_m prev cur g else Ok cur)).
     - destruct (foldM _ _ prev); [|reflexivity]. cbn [bind]. apply apply_universal_ext.
     - intros cur g. rewrite antecedents_hold_ext. reflexivity.
   Qed.
@@ -308,17 +308,17 @@ Section Behaviour.
 
   Lemma types_nodup : NoDup (dkeys (d_types m)).
   Proof.
-    unfold wf_mdomain in Hwf. repeat (apply andb_true_iff in Hwf; destruct Hwf as [Hwf _]).
-    unfold wf_types in Hwf. repeat (apply andb_true_iff in Hwf; destruct Hwf as [Hwf _]).
-    apply negb_true_iff in Hwf. apply has_dup_false_nodup. exact Hwf.
+    pose proof Hwf as H. unfold wf_mdomain in H. repeat (apply andb_true_iff in H; destruct H as [H _]).
+    unfold wf_types in H. repeat (apply andb_true_iff in H; destruct H as [H _]).
+    apply negb_true_iff in H. apply has_dup_false_nodup. exact H.
   Qed.
 
   Lemma consts_nodup : NoDup (dkeys (d_consts m)).
   Proof.
-    unfold wf_mdomain in Hwf. do 4 (apply andb_true_iff in Hwf; destruct Hwf as [Hwf _]).
-    apply andb_true_iff in Hwf. destruct Hwf as [_ Hwf].
-    unfold wf_consts in Hwf. apply andb_true_iff in Hwf. destruct Hwf as [Hwf _].
-    apply negb_true_iff in Hwf. apply has_dup_false_nodup. exact Hwf.
+    pose proof Hwf as H. unfold wf_mdomain in H. do 4 (apply andb_true_iff in H; destruct H as [H _]).
+    apply andb_true_iff in H. destruct H as [_ H].
+    unfold wf_consts in H. apply andb_true_iff in H. destruct H as [H _].
+    apply negb_true_iff in H. apply has_dup_false_nodup. exact H.
   Qed.
 
   Lemma sub_type_same a b : is_sub_type (d_types m') a b = is_sub_type (d_types m) a b.
